@@ -59,6 +59,7 @@ fn main() {
         let v: serde_json::Value = std::fs::read_to_string(path).ok().and_then(|t| serde_json::from_str(&t).ok()).unwrap_or(serde_json::Value::Null);
         match prop.as_str() {
             "C01" => c01::replay(&mut rep, &v),
+            "C02" | "C03" | "C05" => c02::replay(&mut rep, &prop, &v),
             "C04" => c04::replay(&mut rep, &v),
             "C06" => c06::replay(&mut rep, &v),
             "C09" => c09::replay(&mut rep, &v),
